@@ -51,6 +51,11 @@ pub struct Framing {
     pub prio: Option<(bool, u32, u8)>,
     pub end_stream: bool,
     pub splits: Vec<usize>,
+    /// flag bits set on every CONTINUATION frame besides END_HEADERS: the only flag defined for CONTINUATION is
+    /// END_HEADERS (RFC 7540 §6.10), every other bit must be ignored -- in particular the bits that mean PADDED (0x8) and
+    /// PRIORITY (0x20) on a HEADERS frame
+    #[serde(default)]
+    pub cont_flags: u8,
 }
 pub fn headers_frames(stream: u32, block: &[u8], f: &Framing) -> Vec<u8> {
     let mut cuts: Vec<usize> = f.splits.iter().copied().filter(|&c| c <= block.len()).collect();
@@ -90,7 +95,7 @@ pub fn headers_frames(stream: u32, block: &[u8], f: &Framing) -> Vec<u8> {
             }
             out.extend(frame(1, flags, stream, &payload));
         } else {
-            out.extend(frame(9, if last { END_HEADERS } else { 0 }, stream, p));
+            out.extend(frame(9, (if last { END_HEADERS } else { 0 }) | (f.cont_flags & !END_HEADERS), stream, p));
         }
     }
     out
